@@ -94,9 +94,17 @@ def run(chk):
                 if not close(a_to.A, wantA) or a_to.B != {}:
                     bad.append("%s: conversion body gives (%s)*v + (%s)" % (T, affine.n_show(a_to.A), affine.n_show(a_to.B)))
             ms, err = M.oracle_mag(ut, abbrs.get(x, ""))
-            if err or not ms:
+            if ms is None:
                 chk.inconclusive("R1", inst, "symbol %r: %s" % (abbrs.get(x), err), loc)
                 continue
+            if not ms:
+                # the symbol is readable but none of its readings has the dimension the type declares (C06's business);
+                # coherence is still decidable: compare the magnitudes of the readings with the coherent magnitude
+                try:
+                    ms = U.parse(abbrs.get(x, ""), primary_only=True)
+                except U.ParseError as px:
+                    chk.inconclusive("R1", inst, "symbol %r: %s" % (abbrs.get(x), px), loc)
+                    continue
             if not any(m.q == want.q and m.k == want.k for m in ms):
                 bad.append("symbol %r denotes %s" % (abbrs.get(x), ms[0]))
             detail = "system base units (T,L,M,I,Th,N,J) = %s; dims %s => coherent magnitude %s" % ([str(b.q) for b in bases[s]], dv, affine.n_show(wantA))
